@@ -77,6 +77,14 @@ class Ctx:
             self.inconclusive.append(
                 {"reason": "case watchdog fired", "index": self.case_index, "case": case}
             )
+        except Exception as err:  # pylint: disable=broad-except
+            # an error of the harness itself is never a verdict
+            self.count("harness_errors")
+            if len(self.inconclusive) < 20:
+                self.inconclusive.append(
+                    {"reason": "harness error: " + tb_short(err, 4), "index": self.case_index,
+                     "case": case}
+                )
         finally:
             self.end()
 
